@@ -61,6 +61,7 @@ type VC struct {
 	usedFolds      map[string]bool
 	nopanicOrd     int
 	extraAxioms    []string
+	optintStrAxiom bool
 	curFrame       *Frame
 	heapSorts      map[string]string
 	groupCtr       int
